@@ -34,6 +34,7 @@ import Chrono.Proofs.C15ZonedL
 import Chrono.Proofs.ScanBoundaryL
 import Chrono.Proofs.C15ArithL
 import Chrono.Proofs.StrftimeBoundL
+import Chrono.Proofs.StrftimeUtf8L
 
 namespace Chrono.Props.C15
 open Chrono Chrono.M Chrono.Spec Chrono.Proofs Chrono.Extracted
@@ -537,6 +538,23 @@ theorem parser_slices_at_boundaries (items : List Item) (it : Item) (p : Parsed)
   ⟨fun h hl => ScanBoundary.parseItemBase_bs p s it p' s' hv hl h, ScanBoundary.parse_rfc2822_bs p s p' s' hv,
    ScanBoundary.parse_rfc3339_bs p s p' s', ScanBoundary.parse_rfc3339_relaxed_bs p s p' s' hv,
    fun h hl => ScanBoundary.parse_internal_bs items p s p' s' hv hl h⟩
+
+open Chrono.M.Tz Chrono.Spec.Utf8 Chrono.M.Scan in
+/-- **end to end, `parse_from_str` / `parse_and_remainder` on `&str` text × `&str` format string** (any
+two well-formed UTF-8 byte strings): every `parse_next_item` call of `StrftimeItems::new(fmt)` (strict
+mode) slices the format string after whole characters, every literal it cuts out is well-formed UTF-8 —
+so the items satisfy `ItemsUtf8` — and hence every slice the item-driven parser takes of the text is at a
+char boundary; the remainder `parse_and_remainder` returns is a `&str`.  (Lenient mode, which
+`parse_from_str` does not use, re-slices the format string at a byte count kept in `error_len`; that
+count is not covered here.) -/
+theorem parse_from_str_slices (s fmt : List Nat) (hs : validUtf8 s = true) (hf : validUtf8 fmt = true) :
+    (∀ r, Strftime.parse_next_item false fmt = some r → BoundarySuffix fmt r.1) ∧
+    ScanBoundary.ItemsUtf8 (Strftime.items fmt) ∧
+    (∀ p rest, ParseFrom.fieldsRem s fmt = .ok (p, rest) → BoundarySuffix s rest ∧ validUtf8 rest = true) := by
+  have hi := StrftimeUtf8.items_utf8 fmt hf
+  refine ⟨fun r h => (StrftimeUtf8.parse_next_item_good fmt hf r h).1, hi, fun p rest h => ?_⟩
+  have hb := ScanBoundary.parse_internal_bs _ _ s p rest hs hi h
+  exact ⟨hb, Utf8.bs_valid_rest hs hb⟩
 
 open Chrono.M.Tz Chrono.Spec.Utf8 Chrono.M.Scan in
 /-- non-vacuity, multi-byte characters right after the match: `jAn` before `é` (slice at 3, a boundary;
